@@ -904,6 +904,43 @@ def fold_int(d):
     return None
 
 
+def copy_origin(body, d, op, at):
+    """follow a read operand back over value-preserving moves to the place it was copied from: `x = copy y`, and the
+    round trip through an aggregate literal that is only built to carry the value (`t = (a, b); x = t.0`, the return
+    tuple / struct of a helper whose body was inlined, a literal bound to a temporary).  Every local on the way has
+    exactly one definition (a whole-local statement: no partial write, no call result) and is never mutably borrowed,
+    so the value read at the end is the value `op` has at `at`.  Returns (operand, (bb, idx) at which it is read)."""
+    while op[0] in ('c', 'm'):
+        l, proj = op[1][0], list(op[1][1])
+        if any(not (isinstance(e, list) and e and e[0] == 'f') for e in proj):
+            break
+        ds = body.defs_of(l)
+        if len(ds) != 1 or ds[0][0] != 'stmt' or l in d.mut_borrowed:
+            break
+        rv, here = ds[0][3], (ds[0][1], ds[0][2])
+        if rv[0] == 'use' and rv[1][0] in ('c', 'm'):
+            src = rv[1]
+            op, at = [src[0], [src[1][0], list(src[1][1]) + proj]], here
+        elif rv[0] == 'agg' and proj and rv[1][0] in ('tuple', 'adt'):
+            name = proj[0][1]
+            if rv[1][0] == 'tuple':
+                k = int(name) if name.isdigit() else None
+            else:
+                k = list(rv[1][3]).index(name) if len(rv[1]) > 3 and name in rv[1][3] else None
+            if k is None or k >= len(rv[2]):
+                break
+            src = rv[2][k]
+            if src[0] in ('c', 'm'):
+                op, at = [src[0], [src[1][0], list(src[1][1]) + proj[1:]]], here
+            elif not proj[1:]:
+                return src, here
+            else:
+                break
+        else:
+            break
+    return op, at
+
+
 def recorded_cids_not_displaced(ctx):
     """e/recorded_cid_not_displaced: a CID recorded in ConnectionMeta.loc_cids stays recorded until ConnectionIndex::remove
     walks the map.  loc_cids is keyed by sequence number and every later issuance (send_new_identifiers) records its CID
@@ -911,7 +948,9 @@ def recorded_cids_not_displaced(ctx):
     strictly below the cids_issued value stored in the ConnectionMeta on every path through its insertion, and (2) two
     insertions on a common path use different keys.  Paths are related through the definitions of the counter: a
     definition of the stored counter value lies on a common path with an insertion if it is made behind the insertion, or
-    reaches the insertion and is still the current one when the record is built."""
+    reaches the insertion and is still the current one when the counter is read for the record.  The stored counter is
+    followed back to that read over plain copies and over aggregates that only carry it (copy_origin: the return tuple
+    of an extracted helper keeps the per-path definitions apart instead of merging them into one value set)."""
     F = ctx.facts
     ac = ctx.pfn('Endpoint::add_connection')
     d = describer(F, ac)
@@ -924,13 +963,7 @@ def recorded_cids_not_displaced(ctx):
                and (arg_desc(F, c, 0) == mp or D.has_field(arg_desc(F, c, 0), 'loc_cids')) and m.bb in ac.reachable_strict(c.bb)]
         keys = {c.bb: [fold_int(x) for x in flat(arg_desc(F, c, 1))] for c in ins}
         # the counter: follow plain copies back to the variable, then its definitions reaching the record
-        op, at = m.field_op('cids_issued'), (m.bb, m.idx)
-        while op[0] in ('c', 'm') and not op[1][1]:
-            ds = ac.defs_of(op[1][0])
-            if len(ds) == 1 and ds[0][0] == 'stmt' and ds[0][3][0] == 'use' and ds[0][3][1][0] in ('c', 'm') and not ds[0][3][1][1][1]:
-                op, at = ds[0][3][1], (ds[0][1], ds[0][2])
-            else:
-                break
+        op, at = copy_origin(ac, d, m.field_op('cids_issued'), (m.bb, m.idx))
         why = []
         defs = []     # (block or None, [values])
         if op[0] in ('c', 'm') and not op[1][1]:
@@ -959,8 +992,10 @@ def recorded_cids_not_displaced(ctx):
                         common = True
                     elif dbb in ac.reachable_strict(s.bb):
                         common = True
+                    elif s.bb == at[0] or s.bb in ac.reachable_strict(at[0]):
+                        common = True      # the insertion lies behind the point at which the counter is read for the record
                     else:
-                        common = df in here and path_avoiding(ac, ac.succ[s.bb], [m.bb], all_def_blocks - {m.bb}) is not None
+                        common = df in here and path_avoiding(ac, ac.succ[s.bb], [at[0]], all_def_blocks - {at[0]}) is not None
                     if common and any(k >= v for k in keys[s.bb] for v in vs):
                         why.append('a CID is recorded under sequence number %s on a path on which the connection starts with cids_issued = %s: the next CID issued is recorded under '
                                    'that number again and displaces it' % (sorted(set(keys[s.bb])), sorted(set(vs))))
